@@ -52,7 +52,16 @@ def configs(tier):
         for perm in LOWER[:2]:
             for ab in ('unit', 'mixed'):
                 out.append(dict(rshape=[2, 3, 4], perm=list(perm), ab=ab))
+        # pixel-ALIGNED sources (identity links): selections defined on the reference (slice / pixel states) are
+        # translated to the source by re-ordering their slices
+        for perm in [PERMS3[1], PERMS3[2], LOWER[0], LOWER[3]]:
+            out.append(dict(rshape=[2, 3, 4], perm=list(perm), ab='unit', same=True))
+        out.append(dict(rshape=[3, 4], perm=[1, 0], ab='unit', same=True))
     else:
+        for perm in PERMS3 + LOWER:
+            out.append(dict(rshape=[2, 3, 4], perm=list(perm), ab='unit', same=True))
+        for perm in PERMS2:
+            out.append(dict(rshape=[3, 4], perm=list(perm), ab='unit', same=True))
         for perm in PERMS3:
             for ab in ('unit', 'mixed', 'shift', 'flip'):
                 out.append(dict(rshape=[2, 3, 4], perm=list(perm), ab=ab))
@@ -74,7 +83,8 @@ def cfg_class(cfg):
         kind = 'aligned'
     else:
         kind = 'permuted'
-    return 'nd=%d|%s%s' % (nd, kind, '|relinked' if cfg.get('relink') else '')
+    return 'nd=%d|%s%s%s' % (nd, kind, '|relinked' if cfg.get('relink') else '',
+                             '|pixel-aligned' if cfg.get('same') else '')
 
 
 class World(object):
@@ -84,8 +94,9 @@ class World(object):
 def build_world(cfg):
     """Fresh real objects + the model map."""
     from glue.core import Data, DataCollection
-    from glue.core.link_helpers import LinkTwoWay
-    from glue.core.subset import RoiSubsetState
+    from glue.core.link_helpers import LinkTwoWay, LinkSame
+    from glue.core.subset import RoiSubsetState, SliceSubsetState
+    from glue.viewers.image.pixel_selection_subset_state import PixelSubsetState
     from glue.core.roi import RectangularROI
     w = World()
     rshape = tuple(cfg['rshape'])
@@ -120,7 +131,12 @@ def build_world(cfg):
         for ia, (ra, a, b) in enumerate(w.maps[name]):
             f = (lambda a, b: (lambda x: a * x + b))(a, b)
             g = (lambda a, b: (lambda y: (y - b) / a))(a, b)
-            w.dc.add_link(LinkTwoWay(w.R.pixel_component_ids[ra], D.pixel_component_ids[ia], f, g))
+            if cfg.get('same') and name == 'S':
+                if (a, b) != (1.0, 0.0):
+                    raise core.EngineError('pixel-aligned configurations need the unit map')
+                w.dc.add_link(LinkSame(w.R.pixel_component_ids[ra], D.pixel_component_ids[ia]))
+            else:
+                w.dc.add_link(LinkTwoWay(w.R.pixel_component_ids[ra], D.pixel_component_ids[ia], f, g))
     # selections on S, with masks computed from their definitions
     px = np.meshgrid(*[np.arange(s) for s in S.shape], indexing='ij')
     w.states = {}
@@ -132,6 +148,21 @@ def build_world(cfg):
     thr = float(np.median(w.arrays[('S', 's')])) + 0.25
     w.states['ineq'] = S.id['s'] > thr
     w.masks['ineq'] = w.arrays[('S', 's')] > thr
+    if cfg.get('same'):
+        # selections defined on the REFERENCE: a different slice along every reference axis (stepped, partial,
+        # single), and a pixel selection; on the source they select the elements whose shared pixel coordinates
+        # lie inside the slices of the corresponding reference axes
+        rsl = [slice(1, None), slice(0, 2), slice(0, None, 2)][3 - len(rshape):]
+        w.states['slice'] = SliceSubsetState(w.R, list(rsl))
+        psl = [slice(1, 2), slice(None), slice(2, 3)][3 - len(rshape):]
+        w.states['pixel'] = PixelSubsetState(w.R, list(psl))
+        for key, sls in (('slice', rsl), ('pixel', psl)):
+            m = np.ones(S.shape, dtype=bool)
+            for ia, (ra, a, b) in enumerate(w.maps['S']):
+                inside = np.zeros(S.shape[ia], dtype=bool)
+                inside[sls[ra]] = True
+                m &= inside[px[ia]]
+            w.masks[key] = m
     w.ties = 0
     if cfg.get('relink'):
         # the links were REPLACED after the collection had been used (what the link editor does through
@@ -250,7 +281,10 @@ def check_requests(res, cfg, first):
     for rest in itertools.product(*opts[1:]):
         bounds = [opts[0][first]] + list(rest)
         bcls = ''.join(bound_class(b, n) for b, n in zip(bounds, rshape))
-        for kind, what in (('val', 's'), ('val', 't'), ('mask', 'roi'), ('mask', 'ineq')):
+        whats = [('val', 's'), ('val', 't'), ('mask', 'roi'), ('mask', 'ineq')]
+        if cfg.get('same'):
+            whats = [('val', 's'), ('mask', 'slice'), ('mask', 'pixel'), ('mask', 'roi')]
+        for kind, what in whats:
             req = [kind, 'S', what, jb(bounds)]
             exp, ninv, nval = oracle_request(w, req)
             case = dict(kind='request', cfg=cfg, request=req)
